@@ -95,7 +95,8 @@ def outline_case(draw):
                 row.append(draw(st.sampled_from(TAG_VALUES if c == tagcol else VALUES)))
             rows.append(row)
         outline["ex"].append({"name": draw(st.sampled_from([u"", u"E", u"ex <%s>" % cols[0], u"two words"])),
-                              "tags": draw(st.lists(st.sampled_from([u"e1", u"e2", u"wip"]), max_size=2, unique=True)),
+                              "tags": draw(st.lists(st.sampled_from([u"e1", u"e2", u"wip", u"region=eu/west", u"owner=ops@example.com"]),
+                                                    max_size=2, unique=True)),
                               "cols": order, "rows": rows})
     edits = []
     for _ in range(draw(st.integers(0, 3)) if draw(st.booleans()) else 0):
@@ -354,3 +355,4 @@ def required_labels(tier):
 
 KNOWN_PREDICATES = {}
 RULE = RULE + " " + ('Table edits include remove_columns() with an unknown name among the names (KeyError caught, partial effect modelled) and a build that fails on an unusable name schema, is caught, and is repeated with the schema restored.')
+RULE = RULE + " " + ('Examples blocks carry tags with characters outside the alphabet of rendered tags (region=eu/west, owner=ops@example.com): they reach the rows as written.')
